@@ -86,6 +86,11 @@ func (g *Gen) sortSlice(args []ssa.Value, st *State) *State {
 		r, ln, src, src, ln, row, lo, oldrow, lo, src, dst, src, row, lo))
 	g.assert(fmt.Sprintf("(=> %s (forall ((i!s Int)) (! (=> (and (<= 0 i!s) (< i!s %s)) (and (<= 0 (%s i!s)) (< (%s i!s) %s) (= (select %s (loc %s i!s)) (select %s (loc %s (%s i!s)))) (= (%s (%s i!s)) i!s))) :pattern ((select %s (loc %s i!s))))))",
 		r, ln, dst, dst, ln, oldrow, lo, row, lo, dst, src, dst, oldrow, lo))
+	// bridge: every absolute read inside the window is also a relative read
+	for _, rw := range []string{row, oldrow} {
+		g.assert(fmt.Sprintf("(=> %s (forall ((k!s Int)) (! (=> (and (<= %s k!s) (< k!s %s)) (= (select %s k!s) (select %s (loc %s (- k!s %s))))) :pattern ((select %s k!s)))))",
+			r, lo, hi, rw, rw, lo, lo, rw))
+	}
 	nm := g.fresh("sort.mem", g.u.compSort[k])
 	g.assert(fmt.Sprintf("(= %s (ite (= (s.base %s) 0) %s (store %s (s.base %s) %s)))", nm, s, mem, mem, s, row))
 	post := g.update(st, k, nm)
@@ -110,8 +115,8 @@ func (g *Gen) sortSlice(args []ssa.Value, st *State) *State {
 	if lessJI.Sort != "Bool" {
 		g.fail("sort.Slice: def of %s is not boolean", displayName(lessFn))
 	}
-	g.assert(fmt.Sprintf("(=> %s (forall ((i!s Int) (j!s Int)) (=> (and (<= 0 i!s) (< i!s j!s) (< j!s (s.len %s))) (not %s))))",
-		r, s, lessJI.T))
+	g.assert(fmt.Sprintf("(=> %s (forall ((i!s Int) (j!s Int)) (! (=> (and (<= 0 i!s) (< i!s j!s) (< j!s (s.len %s))) (not %s)) :pattern ((select %s (loc %s i!s)) (select %s (loc %s j!s))))))",
+		r, s, lessJI.T, row, lo, row, lo))
 	return post
 }
 
@@ -212,7 +217,7 @@ func (g *Gen) appendBuiltin(v ssa.Value, args []ssa.Value, st *State) *State {
 	oldrow := fmt.Sprintf("(select %s (s.base %s))", mem, s)
 	row := g.fresh("app.row", "(Array Int "+es+")")
 	roff := fmt.Sprintf("(s.off %s)", res)
-	g.assert(fmt.Sprintf("(forall ((k!a Int)) (! (and (=> (and (<= %[1]s k!a) (< k!a (+ %[1]s (s.len %[2]s)))) (= (select %[3]s k!a) (select %[4]s (+ (s.off %[2]s) (- k!a %[1]s))))) (=> (and (<= (+ %[1]s (s.len %[2]s)) k!a) (< k!a (+ %[1]s %[5]s))) (= (select %[3]s k!a) (select %[6]s (+ %[7]s (- k!a %[1]s (s.len %[2]s)))))) (=> (and %[8]s (or (< k!a %[1]s) (>= k!a (+ %[1]s %[5]s)))) (= (select %[3]s k!a) (select %[4]s k!a)))) :pattern ((select %[3]s k!a))))",
+	g.assert(fmt.Sprintf("(forall ((k!a Int)) (! (and (=> (and (<= %[1]s k!a) (< k!a (+ %[1]s (s.len %[2]s)))) (= (select %[3]s k!a) (select %[4]s (loc (s.off %[2]s) (- k!a %[1]s))))) (=> (and (<= (+ %[1]s (s.len %[2]s)) k!a) (< k!a (+ %[1]s %[5]s))) (= (select %[3]s k!a) (select %[6]s (loc %[7]s (- k!a %[1]s (s.len %[2]s)))))) (=> (and %[8]s (or (< k!a %[1]s) (>= k!a (+ %[1]s %[5]s)))) (= (select %[3]s k!a) (select %[4]s k!a)))) :pattern ((select %[3]s k!a))))",
 		roff, s, row, oldrow, newlen, trow, toff, inplace))
 	nm := g.fresh("app.mem", g.u.compSort[k])
 	g.assert(fmt.Sprintf("(= %s (ite (= %s 0) %s (store %s (s.base %s) %s)))", nm, newlen, mem, mem, res, row))
@@ -240,7 +245,7 @@ func (g *Gen) copyBuiltin(v ssa.Value, args []ssa.Value, st *State) *State {
 	g.assert(fmt.Sprintf("(= %s (ite (<= (s.len %s) %s) (s.len %s) %s))", n, d, slen, d, slen))
 	drow := fmt.Sprintf("(select %s (s.base %s))", mem, d)
 	row := g.fresh("copy.row", "(Array Int "+g.u.SortOf(et)+")")
-	g.assert(fmt.Sprintf("(forall ((i!c Int)) (! (= (select %s i!c) (ite (and (<= (s.off %s) i!c) (< i!c (+ (s.off %s) %s))) (select %s (+ %s (- i!c (s.off %s)))) (select %s i!c))) :pattern ((select %s i!c))))",
+	g.assert(fmt.Sprintf("(forall ((i!c Int)) (! (= (select %s i!c) (ite (and (<= (s.off %s) i!c) (< i!c (+ (s.off %s) %s))) (select %s (loc %s (- i!c (s.off %s)))) (select %s i!c))) :pattern ((select %s i!c))))",
 		row, d, d, n, srow, soff, d, drow, row))
 	nm := fmt.Sprintf("(ite (= %s 0) %s (store %s (s.base %s) %s))", n, mem, mem, d, row)
 	if v != nil {
